@@ -7,7 +7,7 @@
 //   vol  := flags ':' repl ':' files       flags: w|r (writable/read-only) + optional f (full marker)
 //   files:= '-' | file (',' file)*         file := <hash32> '=' content
 //   content := 'x' hex*                    literal bytes
-//            | 's' md5 '.' len '.' gen     symbolic: gen := 'R' seed 'n' len ('~f' bitpos | '~t' len | '~a' hex)*
+//            | 's' md5 '.' len '.' gen     symbolic: gen := 'R' seed 'n' len ('~f' bitpos | '~t' len | '~a' hex | '~z' total)*
 //                                          (md5(seed) repeated to len bytes, page number xor-ed into each 4 KiB page)
 //   reqs := req (';' req)*
 //   req  := 'G:' hash [':' hint] | 'H:' hash | 'P:' hash ':' content [':nocl']
@@ -59,7 +59,73 @@ var verifC01Logger = func() *logrus.Logger {
 	return l
 }()
 
-// verifC01Content expands a content spec to bytes.
+// verifC01Expand builds the bytes a generator descriptor stands for. With skipLast the last op is
+// left out (used for sparse planting).
+func verifC01Expand(gen string, skipLast bool) ([]byte, error) {
+	ops := strings.Split(gen, "~")
+	if skipLast {
+		ops = ops[:len(ops)-1]
+	}
+	base := ops[0]
+	if len(base) < 2 || base[0] != 'R' {
+		return nil, fmt.Errorf("bad generator")
+	}
+	sn := strings.SplitN(base[1:], "n", 2)
+	if len(sn) != 2 {
+		return nil, fmt.Errorf("bad generator")
+	}
+	n, err := strconv.Atoi(sn[1])
+	if err != nil {
+		return nil, err
+	}
+	pat := md5.Sum([]byte(sn[0]))
+	buf := make([]byte, n)
+	for i := 0; i < n; i += copy(buf[i:], pat[:]) {
+	}
+	// make every 4 KiB page distinct (a purely periodic block would hide chunk-offset bugs)
+	for k := 0; k*4096+8 <= n; k++ {
+		for j := 0; j < 8; j++ {
+			buf[k*4096+j] ^= byte(uint64(k) >> uint(8*j))
+		}
+	}
+	for _, op := range ops[1:] {
+		if op == "" {
+			return nil, fmt.Errorf("bad generator op")
+		}
+		switch op[0] {
+		case 'f':
+			p, err := strconv.Atoi(op[1:])
+			if err != nil || p/8 >= len(buf) {
+				return nil, fmt.Errorf("bad flip")
+			}
+			buf[p/8] ^= 1 << uint(p%8)
+		case 't':
+			p, err := strconv.Atoi(op[1:])
+			if err != nil || p > len(buf) {
+				return nil, fmt.Errorf("bad trunc")
+			}
+			buf = buf[:p]
+		case 'a':
+			more, err := hex.DecodeString(op[1:])
+			if err != nil {
+				return nil, err
+			}
+			buf = append(buf, more...)
+		case 'z':
+			// zero bytes appended up to a total length
+			p, err := strconv.Atoi(op[1:])
+			if err != nil || p < len(buf) {
+				return nil, fmt.Errorf("bad zero-extension")
+			}
+			buf = append(buf, make([]byte, p-len(buf))...)
+		default:
+			return nil, fmt.Errorf("bad generator op")
+		}
+	}
+	return buf, nil
+}
+
+// verifC01Content expands a content spec to bytes (and checks the generator's digest and length).
 func verifC01Content(spec string) ([]byte, error) {
 	if spec == "" {
 		return nil, fmt.Errorf("empty content spec")
@@ -76,55 +142,9 @@ func verifC01Content(spec string) ([]byte, error) {
 		if err != nil {
 			return nil, err
 		}
-		ops := strings.Split(parts[2], "~")
-		base := ops[0]
-		if len(base) < 2 || base[0] != 'R' {
-			return nil, fmt.Errorf("bad generator")
-		}
-		sn := strings.SplitN(base[1:], "n", 2)
-		if len(sn) != 2 {
-			return nil, fmt.Errorf("bad generator")
-		}
-		n, err := strconv.Atoi(sn[1])
+		buf, err := verifC01Expand(parts[2], false)
 		if err != nil {
 			return nil, err
-		}
-		pat := md5.Sum([]byte(sn[0]))
-		buf := make([]byte, n)
-		for i := 0; i < n; i += copy(buf[i:], pat[:]) {
-		}
-		// make every 4 KiB page distinct (a purely periodic block would hide chunk-offset bugs)
-		for k := 0; k*4096+8 <= n; k++ {
-			for j := 0; j < 8; j++ {
-				buf[k*4096+j] ^= byte(uint64(k) >> uint(8*j))
-			}
-		}
-		for _, op := range ops[1:] {
-			if op == "" {
-				return nil, fmt.Errorf("bad generator op")
-			}
-			switch op[0] {
-			case 'f':
-				p, err := strconv.Atoi(op[1:])
-				if err != nil || p/8 >= len(buf) {
-					return nil, fmt.Errorf("bad flip")
-				}
-				buf[p/8] ^= 1 << uint(p%8)
-			case 't':
-				p, err := strconv.Atoi(op[1:])
-				if err != nil || p > len(buf) {
-					return nil, fmt.Errorf("bad trunc")
-				}
-				buf = buf[:p]
-			case 'a':
-				more, err := hex.DecodeString(op[1:])
-				if err != nil {
-					return nil, err
-				}
-				buf = append(buf, more...)
-			default:
-				return nil, fmt.Errorf("bad generator op")
-			}
 		}
 		if len(buf) != wantLen || fmt.Sprintf("%x", md5.Sum(buf)) != parts[0] {
 			return nil, fmt.Errorf("generator digest mismatch")
@@ -132,6 +152,36 @@ func verifC01Content(spec string) ([]byte, error) {
 		return buf, nil
 	}
 	return nil, fmt.Errorf("bad content spec")
+}
+
+// verifC01Plant writes a content under path. A symbolic content whose last op is a zero-extension
+// is written as a sparse file (prefix + truncate); its digest is checked through the listing.
+func verifC01Plant(path, spec string) error {
+	if spec != "" && spec[0] == 's' {
+		parts := strings.SplitN(spec[1:], ".", 3)
+		if len(parts) == 3 {
+			ops := strings.Split(parts[2], "~")
+			if last := ops[len(ops)-1]; len(ops) > 1 && last[0] == 'z' {
+				total, err := strconv.ParseInt(last[1:], 10, 64)
+				if err != nil || fmt.Sprintf("%d", total) != parts[1] {
+					return fmt.Errorf("bad zero-extension")
+				}
+				prefix, err := verifC01Expand(parts[2], true)
+				if err != nil || int64(len(prefix)) > total {
+					return fmt.Errorf("bad zero-extension")
+				}
+				if err := ioutil.WriteFile(path, prefix, 0644); err != nil {
+					return err
+				}
+				return os.Truncate(path, total)
+			}
+		}
+	}
+	data, err := verifC01Content(spec)
+	if err != nil {
+		return err
+	}
+	return ioutil.WriteFile(path, data, 0644)
 }
 
 func verifC01ParseVols(s string) ([]*verifC01Vol, error) {
@@ -316,14 +366,10 @@ func verifC01Case(line string, tmpParent string) (out string) {
 			return "setup-failed"
 		}
 		for _, kv := range v.files {
-			data, err := verifC01Content(kv[1])
-			if err != nil {
-				return "bad-op"
-			}
 			dir := filepath.Join(v.root, kv[0][:3])
 			os.MkdirAll(dir, 0755)
-			if err := ioutil.WriteFile(filepath.Join(dir, kv[0]), data, 0644); err != nil {
-				return "setup-failed"
+			if err := verifC01Plant(filepath.Join(dir, kv[0]), kv[1]); err != nil {
+				return "bad-op"
 			}
 		}
 		if v.full {
